@@ -100,7 +100,7 @@ def Img.flip {α} (w : Img α) : Img α :=
 def Img.ensureNegative {α} (w : Img α) : Img α := if w.sign = 1 then w.flip else w
 
 theorem extraction_facts : image_flip_uses_height = true ∧ imagedescription_flip_uses_height = true ∧
-    image_flip_reverses_rows = true ∧ image_ensure_flips_iff_positive = true ∧
+    image_flip_reverses_rows = true ∧ image_flip_forgets_pil = true ∧ image_ensure_flips_iff_positive = true ∧
     imagedescription_ensure_flips_iff_positive = true := by decide
 
 /-- **flip_rows**: the row that was at index `y` is at index `height-1-y` afterwards -/
